@@ -34,7 +34,7 @@ type c09Cause struct {
 }
 
 func TestC09(t *testing.T) {
-	rec := evid.New("C09", "rapid: forged valid packets (all shapes/positions/ingress kinds of the C01 forge; IPv4/IPv6 source hosts; payload 0..8000 bytes; optional HBH/E2E headers; upper layer UDP, SCMP echo/traceroute request, or an SCMP error, "+
+	rec := evid.New("C09", "rapid: forged valid packets (all shapes/positions/ingress kinds of the C01 forge; IPv4/IPv6/IPv4-mapped/service-typed source hosts; payload 0..8000 bytes; optional HBH/E2E headers; upper layer UDP, SCMP echo/traceroute request, or an SCMP error, "+
 		"also behind extension headers) + exactly one cause from {invalid MAC, expired hop, wrong ingress interface, unknown egress, forbidden link-type pair (within segment / at segment change), source ISD-AS, destination ISD-AS, wrong payload length, "+
 		"service without instance}; SCMP authentication on/off. Oracle: addresses, checksum (reference sum), type/code/pointer per catalogue, quote = prefix of the offender as received (mutable path state exempt), total <= 1232 bytes, "+
 		"authenticator verifies; nothing is emitted for an offending SCMP error. Non-trivial: truncated quote, extension headers present, authentication on, or offender is an SCMP message.")
@@ -42,7 +42,7 @@ func TestC09(t *testing.T) {
 	rec.Assume("key of authenticated errors comes from the repository's FakeProvider (key derivation itself is C39); MAC input layout and AES-CMAC are the reference ones", "interface-down causes are exercised by C15",
 		"the traffic-class mask of the authenticator follows the listed C21 finding if present")
 	rec.Require("cause_invalid_mac", "cause_expired", "cause_wrong_ingress", "cause_unknown_egress", "cause_linktype_within", "cause_linktype_xover", "cause_src_ia", "cause_dst_ia", "cause_payload_len", "cause_no_svc",
-		"quote_truncated", "auth_on", "offender_scmp_error_silent", "offender_scmp_error_behind_extension_silent", "offender_scmp_info", "offender_ipv6_source")
+		"quote_truncated", "auth_on", "offender_scmp_error_silent", "offender_scmp_error_behind_extension_silent", "offender_scmp_info", "offender_ipv6_source", "offender_source_mapped", "offender_source_svc")
 	rapid.Check(t, func(rt *rapid.T) {
 		var fail string
 		var labels []string
@@ -62,6 +62,18 @@ func TestC09(t *testing.T) {
 				if k.arrival != "host" {
 					labels = append(labels, "offender_ipv6_source")
 				}
+			}
+			// source hosts whose wire form is not what parsing and re-packing them yields: an IPv4-mapped IPv6
+			// address and a service-typed source with non-zero trailing bytes (remote sources are not vetted)
+			rawKind := rapid.SampledFrom([]string{"", "", "mapped", "svc"}).Draw(rt, "rawSrc")
+			if k.arrival != "ext" {
+				rawKind = ""
+			}
+			switch rawKind {
+			case "mapped":
+				k.opts.rawSrcType, k.opts.rawSrc = slayers.T16Ip, append(append(make([]byte, 10), 0xff, 0xff), rapid.SliceOfN(rapid.Byte(), 4, 4).Draw(rt, "mapped4")...)
+			case "svc":
+				k.opts.rawSrcType, k.opts.rawSrc = slayers.T4Svc, []byte{0, byte(rapid.IntRange(1, 2).Draw(rt, "svc")), byte(rapid.IntRange(1, 255).Draw(rt, "svcPad1")), rapid.Byte().Draw(rt, "svcPad2")}
 			}
 			switch rapid.IntRange(0, 3).Draw(rt, "sizeKind") {
 			case 0:
@@ -136,6 +148,7 @@ func TestC09(t *testing.T) {
 				}
 			case "src_ia":
 				k.srcIA = labLocal
+				k.opts.rawSrc, rawKind = nil, ""
 				want.codes, want.pointer = []slayers.SCMPCode{slayers.SCMPCodeInvalidSourceAddress}, 20
 			case "dst_ia":
 				if k.dstIA == labLocal {
@@ -210,9 +223,17 @@ func TestC09(t *testing.T) {
 			d := &si.scion
 			srcHost, _ := d.SrcAddr()
 			dstHost, _ := d.DstAddr()
-			if d.DstIA != k.srcIA || dstHost != k.opts.srcHost {
+			if d.DstIA != k.srcIA || (k.opts.rawSrc == nil && dstHost != k.opts.srcHost) {
 				fail = fmt.Sprintf("SCMP error addressed to %s,%s; offender's source is %s,%s: %s", d.DstIA, dstHost, k.srcIA, k.opts.srcHost, desc)
 				return
+			}
+			// the destination host field is the offender's source host field as it was on the wire
+			if off, err := k.scionLayer(); err == nil && (d.DstAddrType != off.SrcAddrType || !bytes.Equal(d.RawDstAddr, off.RawSrcAddr)) {
+				fail = fmt.Sprintf("SCMP error addressed to host type %d bytes %x; the offender's source host field is type %d bytes %x: %s", d.DstAddrType, d.RawDstAddr, off.SrcAddrType, off.RawSrcAddr, desc)
+				return
+			}
+			if rawKind != "" {
+				labels = append(labels, "offender_source_"+rawKind)
 			}
 			if d.SrcIA != labLocal || srcHost != addr.MustParseHost("10.0.0.1") {
 				fail = fmt.Sprintf("SCMP error originates from %s,%s; router is %s,10.0.0.1: %s", d.SrcIA, srcHost, labLocal, desc)
